@@ -127,6 +127,20 @@ def step_rules(ctx, w, tb):
     T = w.terms(WD.VT_FEED_STR)
     sites = E.call_sites(WD.VT_FEED_STR)
     fe = [cs for cs in sites if (cs.decl or "").endswith("Iterator::for_each")]
+    # whatever the loop form: the characters are those of the string PARAMETER itself (no per-call trimming,
+    # prefix stripping or normalisation - that would make the outcome depend on where the input is cut)
+    ch_sites = [cs for cs in sites if cs.callee.endswith("::chars") or cs.callee.endswith("::char_indices")]
+
+    def is_param(t):
+        t = WD.strip_names(t)
+        while t and t[0] in ("ref", "deref", "copy"):
+            t = t[2] if t[0] == "ref" else t[1]
+        return t == ("load", ("arg2",))
+    for cs in ch_sites:
+        src = T.operand(cs.term["args"][0], cs.point)
+        ctx.check(is_param(src), "S4c", WD.VT_FEED_STR + ":source", "Vt::feed_str iterates the characters of %s, not of its string argument as given: input adjusted once per call makes the result depend on the chunking" %
+                  w.tstr(WD.VT_FEED_STR, src)[:140], loc=w.site_loc(cs), sample={"source": w.tstr(WD.VT_FEED_STR, src)[:140]})
+    ctx.check(len(ch_sites) == 1, "S4c", WD.VT_FEED_STR + ":one-source", "Vt::feed_str takes characters from %d place(s); expected exactly one `.chars()` of its argument" % len(ch_sites), loc=w.fn_loc(WD.VT_FEED_STR))
     ok = False
     detail = ""
     via_feed = [cs for cs in sites if cs.callee == WD.VT_FEED]
